@@ -32,15 +32,35 @@ fn space_for(tier: Tier) -> Space {
             s.tok("T", &gen::T_FULL, 3, 64).tok("T0", &gen::T_CORE, 3, 64);
             s.list("flagstrings", 1 + 11 + 121 + 1331, 128);
             s.list("triggers", crate::checks::c08::triggers().len() as u64, 16);
+            s.list("whitespace under x", xws_crash_cases().len() as u64, 16);
         }
         Tier::Thorough => {
             s.ast("K", 5, 64).ast("Q", 3, 64).ast("CL", 3, 64).ast("G", 6, 64).ast("AN", 4, 64).ast("U", 4, 64).ast("CI", 3, 64).ast("ALT", 4, 64).ast("NEST", 6, 64).ast("GCM", 4, 64).ast("CAPQ", 6, 64).ast("BR", 5, 64);
             s.tok("T", &gen::T_FULL, 3, 64).tok("T0", &gen::T_CORE, 5, 64);
             s.list("flagstrings", 1 + 11 + 121 + 1331, 128);
             s.list("triggers", crate::checks::c08::triggers().len() as u64, 16);
+            s.list("whitespace under x", xws_crash_cases().len() as u64, 16);
         }
     }
     s
+}
+
+/// Patterns with pattern whitespace for flag x: the C07 family plus escaped
+/// parentheses / brackets (whitespace between the backslash and the bracket).
+fn xws_crash_cases() -> Vec<String> {
+    let mut v = crate::checks::c07::xws_cases();
+    for b in ["a\\)", "\\(a\\)", "f\\(", "\\](b?)c", "\\[a\\]", "(a)\\)", "(a(b?))\\(", "[\\]]\\)(a?)"] {
+        let cs: Vec<char> = b.chars().collect();
+        for gap in 0..=cs.len() {
+            for ws in [' ', '\n'] {
+                let mut t: String = cs[..gap].iter().collect();
+                t.push(ws);
+                t.extend(&cs[gap..]);
+                v.push(t);
+            }
+        }
+    }
+    v
 }
 
 fn flag_string(mut idx: u64) -> String {
@@ -191,6 +211,24 @@ impl Check for Crash {
                     }
                     j.out.sample(J::obj(vec![("token_string", J::s(text)), ("dialects", J::s("xpath, xsd")), ("flags", J::s(format!("{:?}", FLAG_MENU)))]));
                 });
+            }
+            SegKind::List { name: "whitespace under x" } => {
+                let t = xws_crash_cases();
+                let inputs: Vec<String> = ["", "a", "ab", "(a)", "f(x)", "]c", "a)", "[a]b", "a b", "abc"].iter().map(|s| s.to_string()).collect();
+                for i in lo..hi {
+                    let text = &t[i as usize];
+                    for flags in ["x", "xi", "xq"] {
+                        for xsd in [false, true] {
+                            let c = imp::compile(text, flags, xsd);
+                            j.obs(&Case::new(&scope_name, text, flags).xsd(xsd).api("compile"), &c, &[EK::Syntax, EK::InvalidFlags]);
+                            if let Out::Ok(re) = c {
+                                j.out.inc("nontrivial");
+                                drive(&mut j, &scope_name, text, flags, xsd, &re, &inputs, &["<$0>", "$1\\$"], usize::MAX);
+                            }
+                        }
+                    }
+                    j.out.sample(J::obj(vec![("pattern_with_whitespace", J::s(text)), ("flags", J::s("x, xi, xq"))]));
+                }
             }
             SegKind::List { name: "triggers" } => {
                 let t = crate::checks::c08::triggers();
